@@ -14,6 +14,18 @@ C = {
    "Kernel-checked on the same fragment for rt = json.Marshal(json.Unmarshal(.)) of the generated type: a declared property present with a non-null value is preserved at its path except an optional zero-valued non-pointer scalar or optional empty map; required properties are never omitted; nothing undeclared is added; scalars, array elements and map entries are carried over one by one (PARTIAL: per nesting level; allOf, additionalProperties next to properties and polymorphism are exercised only). rt is compared with the compiled generated models on every run; the oracle checks loss, additions, idempotence and decodability of valid documents, including allOf members and discriminated subtypes with x-class reached through the base type.",
    "proof on fragment (Coq 8.16) + compiled-model round-trip oracle",
    "Modelled: struct tags / omitempty rules for the fragment. Exercised only: custom (un)marshallers of allOf, additionalProperties, polymorphic types."),
+ "C03": ("proof", "5.3", "rocq-server",
+   "Kernel-checked for every scalar non-body parameter (string with length bounds/enum, integer of every format incl. exclusive bounds and unsigned ranges, boolean; path/query/header/formData; required/optional/allowEmptyValue), every list of raw occurrences and hasKey flag: the generated binder's ladder accepts exactly the requests the parameter semantics accepts (C03_bind_iff), hands the handler the typed validated value (C03_values) and treats a value as absent only when it is empty and may be (C03_absent). PARTIAL: arrays are covered by the split/join theorems and the body by C02's theorem; routing, multipart, strfmt formats are exercised only. Tie: model bind/split_by vs the compiled generated server (one deviation per parameter) every run; a reference binder in the harness is the property-level oracle over the whole request.",
+   "proof (Coq 8.16) of the binding ladder + compiled generated server correspondence and reference-binder oracle",
+   "Modelled: server/parameter.gotmpl ladder for scalar parameters, swag.SplitByFormat. Exercised only: router, consumers, multipart, strfmt. Dependencies: go-openapi/runtime, validate, swag, Go compiler."),
+ "C04": ("proof", "5.4", "rocq-server",
+   "Kernel-checked for all item lists and response codes: join-then-split by any single-character collection format returns exactly the items when each is representable (C04_split_join); the client's response dispatch yields the typed result for exactly the declared codes, the default response or a generic API error otherwise, always with the code the handler used (C04_response_code_kept, C04_typed_iff_declared, C04_undeclared_is_api_error). PARTIAL: payload and header (de)serialisation, media types and transport are exercised by driving the compiled generated client against the compiled generated server in-process (valid values x every declared/default/undeclared response), not modelled.",
+   "proof (Coq 8.16) of split/join and response dispatch + generated client x generated server in-process oracle",
+   "Modelled: swag.JoinByFormat/SplitByFormat, client/response.gotmpl dispatch. Exercised only: client/parameter.gotmpl writers, runtime client, codecs."),
+ "C06": ("proof", "5.6", "rocq-server",
+   "Kernel-checked for every requirement without the anonymous alternative, every assignment of authenticator answers and every binding outcome: the handler runs exactly when the effective requirement is empty or one alternative has all its schemes authenticated, and parameters bind (C06_exact); an unsatisfied request is denied before binding (C06_denied_first); the principal comes from a satisfied alternative (C06_principal); the operation's list replaces the global one (C06_effective). Tie: model serve/authenticate vs the compiled generated server over all 36 credential combinations per operation and security shape. Exercised only: scheme wiring in builder.gotmpl, credential extraction, scopes, status codes.",
+   "proof (Coq 8.16) of the security gate + compiled generated server credential-matrix oracle",
+   "Modelled: server/operation.gotmpl gate, runtime RouteAuthenticators.Authenticate. Exercised only: AuthenticatorsFor wiring, go-openapi/runtime/security."),
  "C07": ("proof", "5.7", "rocq-order",
    "Kernel-checked for all lists and permutations: collect-then-sort, first-match over a table whose matching entries agree, map building from distinct keys and set membership do not depend on iteration order; every map-range site of generator/, diff and codescan (typed inventory regenerated with go/packages on every run) is in a proven pattern or in a reviewed table (C07_sites), and the media-type table (regenerated) is unambiguous on a catalogue of media types. PARTIAL: pattern recognition is syntactic and trusted; byte-identity of whole outputs and data-race freedom are exercised: every command repeated in fresh processes on a wide input, K concurrent library generations under the race detector.",
    "proof of loop patterns (Coq 8.16) + regenerated typed site inventory + N-run / -race oracle",
@@ -57,6 +69,7 @@ ENG = {
  "rocq-yaml": ("/verif/coq (Tools/Decimal.v) + /verif/harness/cmd/yamlcheck", "Coq 8.16 integer-text theorems; CLI differential harness over scalar classes"),
  "rocq-order": ("/verif/coq (Tools/Order*.v, Gen/GenRangeSites.v, Gen/GenMediaTable.v) + /verif/harness/cmd/{rangesites,detcheck}", "Coq 8.16 permutation-invariance lemmas; go/types site inventory; N-run and -race harness"),
  "rocq-models": ("/verif/coq (Sem/Schema*.v) + /verif/harness/cmd/modelcheck", "Coq 8.16 semantics of the schema fragment and of generated models; compiled-model harness"),
+ "rocq-server": ("/verif/coq (Tools/GenServer*.v) + /verif/harness/cmd/servercheck", "Coq 8.16 model of parameter binding, collection formats, response dispatch and the security gate; generated server+client compiled and driven in-process"),
  "rocq-fs": ("/verif/coq (Tools/Regen*.v) + /verif/harness/cmd/regencheck", "Coq 8.16 file-system history machine; real-history harness"),
 }
 extra = os.path.join(V, "tools", "manifest_extra.json")
